@@ -1,3 +1,4 @@
+// NOT RUN: CBMC grew to 48 GB in 10 minutes on this harness (symbolic offsets into the file); measured, kept for reference.
 // bounded Kani harness for the version-2/3 path of TimeZone::from_tzif (C18 decode / C19), modular:
 // Header::parse is replaced by its contract (decided by harness header_parse_total: Err, or exactly 44 bytes consumed and the
 // version and counts the bytes encode) - here: any supported version and small counts; TransitionRule::from_tz_string is
